@@ -7,7 +7,9 @@ CLASS_LAYER = [PA + 'Pauli.__matmul__#Pauli', PA + 'Pauli.__neg__', PA + 'Pauli.
                PA + 'PauliList.rotate_by#nomask', PA + 'PauliList.transform_by#nomask', ST + 'CliffordMap.copy', ST + 'CliffordMap.compose',
                ST + 'CliffordMap.to_state#r', ST + 'CliffordMap.to_state#none', ST + 'StabilizerState.copy', ST + 'StabilizerState.to_map',
                ST + 'StabilizerState.expect#list', ST + 'identity_map', ST + 'StabilizerState.measure#list', ST + 'StabilizerState.postselect',
-               ST + 'StabilizerState.expect#state', 'pyclifford/circuit.py::MeasureLayer.forward', PA + 'PauliList.__neg__', PA + 'PauliList.rotate_by#state', PA + 'PauliPolynomial.__matmul__#poly', PA + 'Pauli.__matmul__#Monomial'] + \
+               ST + 'StabilizerState.expect#state', 'pyclifford/circuit.py::MeasureLayer.forward', PA + 'PauliList.__neg__', PA + 'PauliList.rotate_by#state', PA + 'PauliPolynomial.__matmul__#poly', PA + 'Pauli.__matmul__#Monomial',
+               'pyclifford/circuit.py::CliffordGate.forward#generator_global', 'pyclifford/circuit.py::CliffordGate.backward#generator_global',
+               'pyclifford/circuit.py::CliffordGate.forward#map_global'] + \
               [PA + '%s.__rmul__#%s' % (c, t) for c in ('Pauli', 'PauliList') for t in ('1', 'i', 'm1', 'mi')]
 
 # every kernel that currently has a discharged contract (their frame.* obligations are the C17 frame conditions)
@@ -30,7 +32,7 @@ def q(run, quick, thorough):
 def C01(run):
     run.deductive(keys=[U + 'acq', U + 'ipow', U + 'p0', U + 'ps0', U + 'acq_mat', U + 'batch_dot', PA + 'Pauli.__matmul__#Pauli', PA + 'Pauli.__neg__',
                         PA + 'PauliPolynomial.__matmul__#poly', PA + 'Pauli.__matmul__#Monomial'],
-                  lemmas=['acq_is_anticount'])
+                  lemmas=['acq_is_anticount', 'mul_assoc', 'mul_square'])
     run.bounded_check('c01_products', _b().c01_products, Nmax=q(run, 2, 3))
     return 'proof', ('deductive (all N): acq/ipow/p0/ps0/acq_mat equal the oracle spec functions built from the 2x2 matrices '
                      '(AntiCount parity, IpowSum mod 4); bounded: Pauli.__matmul__, chains, polynomial products against dense matrices')
@@ -38,7 +40,7 @@ def C01(run):
 
 def C02(run):
     run.deductive(keys=[U + 'clifford_rotate', U + 'clifford_rotate_signless', U + 'acq', U + 'ipow', PA + 'PauliList.rotate_by#nomask', PA + 'PauliList.rotate_by#state'],
-                  lemmas=['acq_bilinear', 'acq_antisym', 'ipow_parity'])
+                  lemmas=['acq_bilinear', 'acq_antisym', 'ipow_parity', 'rotate_twice'])
     run.bounded_check('c02_rotation', _b().c02_rotation, Nmax=q(run, 2, 3))
     return 'other', ('deductive (all N, all L): clifford_rotate leaves commuting rows unchanged and replaces anticommuting rows by '
                      'i*P*G with the exact phase, modifies only gs/ps; bounded: rotate_by on every receiver kind, all masks, '
@@ -92,12 +94,18 @@ def C08(run):
     return 'other', 'bounded: entropy against the dense von Neumann entropy of the reduced density matrix for all regions, ranks, both argument forms'
 
 
+GATES = ['pyclifford/circuit.py::CliffordGate.forward#generator_global', 'pyclifford/circuit.py::CliffordGate.backward#generator_global',
+         'pyclifford/circuit.py::CliffordGate.forward#map_global']
+
+
 def C09(run):
+    run.deductive(keys=[GATES[0], GATES[2], U + 'clifford_rotate', U + 'pauli_transform'], lemmas=[])
     run.bounded_check('c09_circuits', _b().c09_circuits, Nmax=3, programs=q(run, 40, 300), maxlen=q(run, 5, 8))
     return 'other', 'bounded: random gate programs in all 3x2x3 configurations against gate-by-gate application; locality of every gate'
 
 
 def C10(run):
+    run.deductive(keys=[GATES[0], GATES[1], U + 'clifford_rotate', PA + 'Pauli.__neg__'], lemmas=['rotate_twice'])
     run.bounded_check('c10_inverse', _b().c10_inverse, Nmax=3, programs=q(run, 40, 300), maxlen=q(run, 5, 8))
     return 'other', 'bounded: backward/forward round trips of gates, layers and circuits (compiled or not) on Pauli lists and states with rank'
 
@@ -185,8 +193,8 @@ TECHNIQUE = {
     'C06': 'deductive per-observable step contract of stabilizer_measure (Born/projection in algebraic form, both coins) (z3); bounded dense-matrix oracle for the identification with matrices',
     'C07': 'deductive contracts on stabilizer_expect, stabilizer_projection_trace, expect(list/state) (z3); bounded dense trace oracle',
     'C08': 'bounded dense von Neumann entropy oracle',
-    'C09': 'bounded program enumeration against gate-by-gate application',
-    'C10': 'bounded program enumeration, forward/backward round trips',
+    'C09': 'bounded program enumeration against gate-by-gate application; deductive contracts for a full-register gate (generator / map) being exactly the rotation / map transformation',
+    'C10': 'bounded program enumeration, forward/backward round trips; deductive: backward of a generator gate is the rotation by minus the generator, double-rotation lemma',
     'C11': 'exhaustive check of the finite gate tables against textbook images',
     'C12': 'deductive contracts on map_to_state/state_to_map/to_state/to_map/stabilizer_project (z3); bounded dense oracle for constructors',
     'C13': 'bounded conformance testing torch vs numpy port',
